@@ -811,7 +811,8 @@ func genC14() {
 				}
 			}
 			if rs, ok := fl.Body.List[0].(*ast.ReturnStmt); ok && len(ps) == 2 && len(rs.Results) == 1 &&
-				c14Text(rs.Results[0]) == "strings.Compare("+ps[0]+".Name(), "+ps[1]+".Name())" {
+				(c14Text(rs.Results[0]) == "strings.Compare("+ps[0]+".Name(), "+ps[1]+".Name())" ||
+					c14Text(rs.Results[0]) == "cmp.Compare("+ps[0]+".Name(), "+ps[1]+".Name())") { // the three-way comparison of the two names
 				sortBy = "Name()"
 			}
 			return true
